@@ -308,7 +308,7 @@ for _cls, _mod in (('Server', 'server'), ('AsyncServer', 'async_server')):
                'Socket.upgraded', 'Socket.upgrading', 'Queue.items', 'Queue.unf', 'Queue.taken',
                'Queue.accepted', 'Queue.put_none', 'Queue.taken_none', 'Packet.encode_cache',
                'ghost.csprng', 'ghost.events', 'ghost.hresults', 'ghost.spawned', 'ghost.now', 'ghost.ws_log',
-               'ghost.received', 'ghost.reads', 'ghost.sr_log', 'ghost.sr_headers')
+               'ghost.received', 'ghost.reads', 'ghost.bodies', 'ghost.sr_log', 'ghost.sr_headers')
     _FINAL = ('cors_headers = self._cors_headers(environ)' if _cls == 'Server' else
               'return await self._make_response(r, environ)')
     c.ghost_before('if self.http_compression and', 'r0', 'r')
